@@ -176,6 +176,15 @@ Theorem only_header_credentials_stripped L reqs a :
 Proof. exact (strip_fields_sound L reqs a). Qed.
 Print Assumptions only_header_credentials_stripped.
 
+(* The decoder strips a credential exactly when the endpoint's own scheme copy says "header":
+   the classification depends on the method's own mapping (L) and requirements only. *)
+Theorem scheme_in_header_iff_stripped L reqs r s a :
+  (forall s1 s2, In s1 (flat_map r_schemes reqs) -> In s2 (flat_map r_schemes reqs) -> s_name s1 = s_name s2 -> s1 = s2) ->
+  In r reqs -> In s (r_schemes r) -> attr_of s = Some a ->
+  (scheme_in L s = "header" <-> In a (strip_fields L reqs)).
+Proof. exact (scheme_in_stripped L reqs r s a). Qed.
+Print Assumptions scheme_in_header_iff_stripped.
+
 (* End to end: inside the hypotheses above, what the callbacks are shown on the server is
    computed from exactly the credentials the client was given. *)
 Theorem credentials_arrive_partial ctx err (auth : kind -> sc -> list bytes -> ctx -> ctx * option err) L p reqs c :
